@@ -7,7 +7,8 @@ def _sig(kind, verdict, tag):
     clause = verdict.split(" ")[1] if " " in verdict else verdict
     if kind == "histp" and clause == "foreign_class_disables_all" and "store-lacks-foreign-configured-class" in (tag or ""):
         return "C17:foreign-configured-class-created-while-running"
-    where = {"base": "fresh", "meta": "fresh", "disabled": "fresh", "hist": "history", "histp": "history-predicate"}[kind]
+    where = {"base": "fresh", "meta": "fresh", "disabled": "fresh", "hist": "history", "histp": "history-predicate",
+             "lead": "leadership"}[kind]
     return f"C17:{clause}:{where}"
 
 
@@ -25,6 +26,8 @@ def _compare(obs, mod, nochange=False):
         return "svcs"
     if not set(obs["btps"]) <= set(mod["btps"]):
         return "btps(upper bound)"
+    if sorted(obs.get("refsnips") or []) != sorted(mod.get("refsnips") or []):
+        return "refsnips(SnippetsFilter.Referenced)"
     ot = sorted(t for t in obs["targets"] if not t.startswith("btp/"))
     mt = sorted(t for t in mod["targets"] if not t.startswith("btp/"))
     if nochange:
@@ -37,22 +40,30 @@ def _compare(obs, mod, nochange=False):
 
 
 def run(ctx):
-    ctx.prepare()
+    ctx.prepare(driver=["C17", "C06"])
     ctx.obligations("NGF.Props.C17")
+    ctx.obligations("NGF.Props.C17Leader")
     if ctx.tier == "thorough":
         ctx.leanchecker("NGF.Props.C17")
 
-    n, nd, nh, steps = (300, 60, 40, 8) if ctx.tier == "quick" else (4000, 600, 400, 12)
-    lines = ctx.harness(["-seed", ctx.seed, "-n", n, "-disabled", nd, "-hist", nh, "-steps", steps]) or []
+    n, nd, nh, steps, nl, nf = (300, 60, 40, 8, 60, 150) if ctx.tier == "quick" else (4000, 600, 400, 12, 600, 1500)
+    lines = ctx.harness(["-seed", ctx.seed, "-n", n, "-disabled", nd, "-hist", nh, "-steps", steps, "-lead", nl,
+                         "-frag", nf]) or []
     if not getattr(ctx, "harness_ok", False):
         ctx.broken("harness does not build against the current tree", detail="\n".join(ctx.build_errors))
 
-    tags, cases, clsev = {}, [], []
+    tags, cases, clsev, leadops, fragx, fragsides = {}, [], [], [], [], []
     for l in lines:
         if l.startswith('{"k":"tags"'):
             tags = json.loads(l)["tags"]
+        elif l.startswith('{"k":"fragx"'):
+            fragx.append(l)
+        elif '"c17":"frag' in l[:40]:
+            fragsides.append(l)
         elif '"k":"clsev"' in l:
             clsev.append(l)
+        elif '"k":"leadops"' in l:
+            leadops.append(l)
         elif l.startswith("{"):
             cases.append(l)
     parsed = [json.loads(l) for l in cases]
@@ -83,7 +94,7 @@ def run(ctx):
         ctx.broken(f"too many panicking runs: {dict(skipped)}")
 
     # ---- correspondence: model classification of every object vs the real graph's maps
-    corr = [(d, l) for d, l in zip(parsed, cases) if d["k"] != "histp" and not d["obs"].get("panic")]
+    corr = [(d, l) for d, l in zip(parsed, cases) if d["k"] not in ("histp", "lead") and not d["obs"].get("panic")]
     outs = ctx.driver("model", [l for _, l in corr])
     diffs, field_diffs = 0, collections.Counter()
     for (d, _), out in zip(corr, outs):
@@ -117,6 +128,119 @@ def run(ctx):
         else:
             cls_ok += 1
 
+    # ---- correspondence of the leadership composition: the model's requests (targets . buildGraph split by groupOf)
+    # through the model of the leader-aware updater vs what the real LeaderAwareGroupUpdater handed to the real Updater
+    lead_ok, lead_bad, lead_ops = 0, 0, 0
+    for l, out in zip(leadops, ctx.driver("leadmodel", leadops)):
+        d = json.loads(l)
+        if out == "bad-op":
+            ctx.broken("leadmodel cannot decode the leadership history")
+            continue
+        mo = json.loads(out)["outs"]
+        bad = None
+        if len(mo) != len(d["outs"]):
+            bad = "number of operations"
+        else:
+            for i, (ro, m) in enumerate(zip(d["outs"], mo)):
+                lead_ops += 1
+                nb = lambda ks: sorted(k for k in ks if not k.startswith("btp/"))
+                if nb(ro) != nb(m) or not {k for k in ro if k.startswith("btp/")} <= {k for k in m if k.startswith("btp/")}:
+                    bad = f"operation {i}"
+                    break
+        if bad:
+            lead_bad += 1
+            diffs += 1
+            if lead_bad <= 2:
+                ctx.broken(f"requests written through the real LeaderAwareGroupUpdater differ from the model's ({bad}) "
+                           f"[{d.get('name')}]", replay={"seed": ctx.seed, "history": d, "model": mo})
+        else:
+            lead_ok += 1
+
+    # ---- the pipeline model (genR = gen . resolve) on in-fragment pairs (s, s+X):
+    #  tie      abstractConf(real http.conf) = genR(decoded cluster), on BOTH sides (C06's `refs` mode);
+    #  fragx    hypotheses of noninterference_foreign_set on the decoded pair (hypsB), the conclusion executed on the
+    #           model, and the verdict on the real files (a judge failure only when the hypotheses hold)
+    fr = collections.Counter()
+    ties = ctx.driver("refs", fragsides, prop="C06") if fragsides else []
+    tie_ok = {}
+    for l, o in zip(fragsides, ties):
+        d = json.loads(l)
+        key = (d["id"], d["c17"])
+        if not o.startswith("{"):
+            fr["tie_undecodable"] += 1
+            ctx.broken(f"C06 refs driver could not decode the fragment case {key}: {o[:200]}")
+            continue
+        m = json.loads(o)
+        if m.get("skip") or not m.get("inFragment"):
+            fr["tie_outside:" + (m.get("skip") or m.get("why", ""))[:50]] += 1
+            continue
+        fr["tie_sides_in_fragment"] += 1
+        bad = []
+        if not m["confEqual"]:
+            bad.append("http.conf differs from gen(resolve c): " + m["confDiff"][:400])
+        if not m["shapeOK"]:
+            bad.append("resolve changed the shape of the routes")
+        bad += [f"graph BackendRef differs: {x}" for x in m["refsDiffs"][:3]]
+        if sorted(d.get("refsvcs") or []) != m["refSvcs"]:
+            bad.append(f"Graph.ReferencedServices real {sorted(d.get('refsvcs') or [])} model {m['refSvcs']}")
+        if bad:
+            fr["tie_diffs"] += 1
+            diffs += 1
+            if fr["tie_diffs"] <= 2:
+                ctx.broken(f"pipeline model and real pipeline disagree on fragment case {key}: {bad[0][:300]}",
+                           replay={"seed": ctx.seed, "case": key, "differences": bad, "in": d["in"]})
+        else:
+            fr["tie_sides_equal"] += 1
+            tie_ok[key] = True
+    for l, o in zip(fragx, ctx.driver("fragx", fragx) if fragx else []):
+        d = json.loads(l)
+        if d.get("panic"):
+            fr["panic"] += 1
+            continue
+        if not o.startswith("{"):
+            fr["fragx_undecodable"] += 1
+            ctx.broken(f"fragx driver could not decode pair {d['id']}: {o[:200]}")
+            continue
+        m = json.loads(o)
+        if not m["inFragment"]:
+            fr["pair_outside:" + m["why"][:50]] += 1
+            continue
+        fr["pairs_in_fragment"] += 1
+        if not m["hyps"]:
+            fr[f"hypotheses_not_met:mixed={m['mixed']},foreign={m['foreign']},keys={m['keys']}"] += 1
+            continue
+        fr["pairs_hypotheses_hold"] += 1
+        fr["x_routes"] += m["xroutes"]
+        fr["x_gateways"] += m["xgateways"]
+        fr["x_classes"] += m["xclasses"]
+        fr["x_services"] += m["xservices"]
+        fr["x_grants"] += m["xgrants"]
+        fr["probes"] += m["probes"]
+        if m["served"] and m["servers"] > 0:
+            fr["pairs_served_with_servers"] += 1
+        if m["rawDiffers"]:
+            fr["pairs_model_output_differs_textually"] += 1
+        if m["xInGraph"]:
+            fr["pairs_with_x_route_in_graph_but_unattached"] += 1
+        elif m["refSvcsPerm"]:
+            fr["pairs_referenced_services_unchanged"] += 1
+        if tie_ok.get((d["id"], "fragA")) and tie_ok.get((d["id"], "fragB")):
+            fr["pairs_tied_on_both_sides"] += 1
+        if m["thm"]:
+            fr["theorem_contradicted"] += 1
+            ctx.broken(f"executable model contradicts a theorem on pair {d['id']}: {m['thm'][:300]}", kind="obligation",
+                       replay={"seed": ctx.seed, "pair": d["id"], "a": d["a"], "b": d["b"]})
+        if m["verdict"].startswith("fail"):
+            fr["files_differ"] += 1
+            if fr["files_differ"] <= 2:
+                ctx.finding("C17:files_unchanged:fragment",
+                            f"{m['verdict']}: generated files differ with a foreign set X (hypotheses of "
+                            f"noninterference_foreign_set hold) [frag pair {d['id']}]",
+                            {"seed": ctx.seed, "pair": d["id"], "x": d["x"], "filesA": d["filesA"], "filesB": d["filesB"],
+                             "a": d["a"], "b": d["b"]})
+    if fragx and fr["pairs_hypotheses_hold"] < len(fragx) // 2:
+        ctx.broken(f"fragment generator: fewer than half of the pairs satisfy the theorem's hypotheses: {dict(fr)}")
+
     # ---- coverage
     def nontrivial(d):
         st, x = d["in"], d["j"].get("x") or []
@@ -126,6 +250,8 @@ def run(ctx):
             return len(st["gws"]) >= 1 and len(st["routes"]) >= 1
         if d["k"] in ("hist", "histp"):
             return not d["j"].get("nochange") and len(x) >= 1
+        if d["k"] == "lead":
+            return d["j"].get("phase") in ("enable", "post") and len(d["j"].get("reqs") or []) >= 1
         return False
     distinct = {json.dumps(d["in"], sort_keys=True) + "|" + d["k"] for d in parsed if nontrivial(d)}
     xkinds = collections.Counter()
@@ -144,16 +270,24 @@ def run(ctx):
         if d["k"] in ("disabled", "histp") and len(samples) < 5 and d["id"] % 7 == 0:
             samples.append({"k": d["k"], "id": d["id"], "tag": d.get("tag"), "classes": d["in"]["classes"],
                             "targets": d["j"]["targets"]})
+    ctx.dependency("C09", "status requests reach the API through the leader-aware group updater: only the last submission "
+                          "per group is written at Enable")
+    ctx.dependency("C08", "foreign status entries are preserved by the merging setters")
     ctx.finish({
-        "evaluations": len(cases),
+        "evaluations": len(cases) + len(fragx),
         "distinct_nontrivial": len(distinct),
         "rule": "distinct cluster states judged on the real pipeline; non-trivial = metamorphic pair with a winning Gateway, "
                 ">=1 route in the graph and >=3 foreign objects added / disabled case with gateways and routes / history "
-                "step that rebuilt the graph with >=1 foreign object present",
+                "step that rebuilt the graph with >=1 foreign object present / leadership operation at or after Enable "
+                "that handed >=1 request to the real Updater (in-fragment pairs are counted in pipeline_fragment)",
         "samples": samples,
-        "traces_validated_against_impl": len(corr) - diffs,
+        "traces_validated_against_impl": len(corr) + lead_ok + fr["tie_sides_equal"] - diffs,
         "correspondence_diffs": diffs,
         "class_store_histories_validated": cls_ok,
+        "pipeline_fragment": dict(fr),
+        "leadership_histories_validated": lead_ok,
+        "leadership_operations_compared": lead_ops,
+        "dependencies": getattr(ctx, "deps", []),
         "correspondence_diff_fields": dict(field_diffs),
         "case_kinds": dict(kinds),
         "verdicts": dict(vcount),
@@ -170,5 +304,9 @@ def run(ctx):
         "generator's output is not a function of its input (Go map order, C14) runs are repeated and compared as sets",
     ], trusted=[
         "harness/pipeline (shared in-process wiring of the real ChangeProcessor, BuildConfiguration, Generator, Prepare*Requests)",
-        "Lean judge NGF.Ownership.judge (specification predicates foreign*/droppableKeys)",
+        "Lean judge NGF.Ownership.judge / judgeLead (specification predicates foreign*/droppableKeys)",
+        "the recording Kubernetes client behind the real status.Updater in the leadership stream (Get answers from the "
+        "cluster as it is at that moment)",
+        "Secrets/ConfigMaps/Services/ReferenceGrants of the foreign set (keys `aux:`) are foreign by construction of the "
+        "generator (names no object of the base scenario uses)",
     ])
